@@ -30,7 +30,7 @@ RULE = (
     "failing exit}; mode A crash points = every prefix of the device event log (writes, flushes, "
     "acknowledgements) x every prefix length of the unflushed bytes (all lengths for lines < 600 bytes, "
     "boundaries and every 512th byte otherwise); mode B = real SIGKILL of a forked child at every "
-    "before-write / after-write / after-flush / after-ack boundary on real disk files of 5 kinds (binary buffered/unbuffered, text buffered / write-through / line-buffered); "
+    "before-write / after-write / after-flush / after-ack boundary on real disk files of 7 kinds (binary buffered/unbuffered/256 kB buffer, text buffered / write-through / line-buffered / 256 kB buffer), incl. lines larger than the default buffer; "
     "non-trivial = crash point that truncates the log (not the final one)"
 )
 ASSUMPTIONS = [
@@ -63,6 +63,10 @@ def units(tier):
         out.append(["real", i, FILE_KINDS[j % len(FILE_KINDS)]])
     for fk in FILE_KINDS:
         out.append(["real", 3 % len(ps), fk])
+    # a program whose lines exceed the default buffer size (10 kB field), on every file kind
+    big = next((i for i, p in enumerate(ps) if any(x[1].get("fs") == 1 or x[1].get("sf") == 1 for x in progs.walk(p)) and len(progs.walk(p)) >= 2), 0)
+    for fk in FILE_KINDS:
+        out.append(["real", big, fk])
     return out
 
 
@@ -75,7 +79,8 @@ def cases(unit, tier):
         yield ["real", ps[unit[1]], unit[2]]
 
 
-FILE_KINDS = ["binary-buffered", "binary-unbuffered", "text-buffered", "text-write-through", "text-line-buffered"]
+FILE_KINDS = ["binary-buffered", "binary-unbuffered", "text-buffered", "text-write-through", "text-line-buffered",
+              "binary-256k-buffer", "text-256k-buffer"]
 
 
 def open_kind(path, kind):
@@ -88,6 +93,10 @@ def open_kind(path, kind):
         return open(path, "ab", buffering=0)
     if kind == "text-buffered":
         return open(path, "a", encoding="utf-8", newline="")
+    if kind == "binary-256k-buffer":
+        return open(path, "ab", buffering=1 << 18)
+    if kind == "text-256k-buffer":
+        return open(path, "a", buffering=1 << 18, encoding="utf-8", newline="")
     if kind == "text-write-through":
         return io.TextIOWrapper(open(path, "ab"), encoding="utf-8", newline="", write_through=True)
     if kind == "text-line-buffered":
